@@ -58,7 +58,7 @@ func networkRoots(w *World, r *Run, rule string) []*ssa.Function {
 // confirmedSafe: implicit-panic sites that the zone cannot discharge, confirmed by reading; one reason each.
 // Key: function | kind | operand description (semantic, not positional).
 var confirmedSafe = map[string]string{
-	modPath + "/internal/feeder/sumdb | slice2arr | to.Hash -> [32]byte":                 "the checkpoint bytes passed tlog.ParseTree (exactly 32-byte hash) in fetchCheckpoint -> ParseCheckpointNote before FeedOnce parsed them again (rule C19.b-sumdb-raw below checks that provenance)",
+	modPath + "/internal/feeder/sumdb | slice2arr | to.Hash -> [32]byte": "the checkpoint bytes passed tlog.ParseTree (exactly 32-byte hash) in fetchCheckpoint -> ParseCheckpointNote before FeedOnce parsed them again (rule C19.b-sumdb-raw below checks that provenance)",
 }
 
 func ruleExplicitPanic(w *World, r *Run, rule string) map[*ssa.Function]bool {
@@ -882,7 +882,6 @@ func sortedSet(m map[string]bool) []string {
 	return ks
 }
 
-
 // C18.e NO-MANUAL-ENCODING: production code that fetches from logs never sets Accept-Encoding itself. net/http
 // decompresses transparently only when the header was left alone; a hand-set "gzip" hands the raw gzip stream to the
 // tile/record parsers as soon as a server or CDN actually compresses.
@@ -924,7 +923,6 @@ func ruleNoManualEncoding(w *World, r *Run, rule string) {
 		r.Pass(rule, "outbound requests | response decoding left to net/http", "", "")
 	}
 }
-
 
 // configOnly: the SSA value is computed only from constants, fields of the method's receiver and package-level variables.
 func configOnly(fn *ssa.Function, v ssa.Value, depth int) bool {
